@@ -86,6 +86,32 @@ def main():
                 matches = [i for i, ch in enumerate([None] + choices) if get_fresh(ch) == snap]   # 0 = undeformed
                 res['histories'].append({'cls': cls, 'size': list(size), 'ops': ops,
                                          'choices': [list(c) for c in choices], 'matches': matches})
+            # bpauli.apply_deformation (the Hadamard on flagged qubits, as a function on binary vectors): for deformations that swap
+            # X and Z on some qubits and leave the others alone, it must turn the undeformed tables into the deformed ones -
+            # whatever way the flags are written (bool / int lists, bool / uint8 / int64 arrays)
+            from panqec import bpauli as _bp
+            for (nm, ax) in choices:
+                kw = {'deformation_axis': ax} if ax else {}
+                u, d_ = klass(*size), klass(*size)
+                d_.deform(nm, **kw)
+                dd = [u.get_deformation(q, nm, **kw) for q in u.qubit_coordinates]
+                if not all(x in ({'X': 'X', 'Y': 'Y', 'Z': 'Z'}, {'X': 'Z', 'Y': 'Y', 'Z': 'X'}) for x in dd):
+                    continue
+                flags = [x['X'] == 'Z' for x in dd]
+                Hu, Hd = u.stabilizer_matrix.toarray().astype('uint8'), d_.stabilizer_matrix.toarray().astype('uint8')
+                lu, ld = np.asarray(u.logicals_x).astype('uint8')[0], np.asarray(d_.logicals_x).astype('uint8')[0]
+                bad = []
+                for form, fl in (('list of bool', list(flags)), ('list of int', [int(f) for f in flags]), ('bool array', np.array(flags, dtype=bool)),
+                                 ('uint8 array', np.array(flags, dtype='uint8')), ('int64 array', np.array(flags, dtype='int64'))):
+                    try:
+                        if not np.array_equal(np.asarray(_bp.apply_deformation(fl, Hu)), Hd):
+                            bad.append([form, '2-D stabilizer matrix'])
+                        if not np.array_equal(np.asarray(_bp.apply_deformation(fl, lu)), ld):
+                            bad.append([form, '1-D logical'])
+                    except Exception as ex:
+                        bad.append([form, 'raised %s: %s' % (type(ex).__name__, ex)])
+                res.setdefault('apply_deformation', []).append({'cls': cls, 'size': list(size), 'name': nm, 'axis': ax, 'n_flagged': int(sum(flags)),
+                                                                  'bad': bad[:4]})
             # noise side, dyadic parameters (exact float arithmetic)
             for (nm, ax) in choices:
                 for (rx, ry, rz, p) in [(0.125, 0.25, 0.625, 0.25), (0.0, 0.5, 0.5, 0.5), (1.0, 0.0, 0.0, 0.125),
